@@ -185,13 +185,35 @@ fn check_fileset(ctx: &Ctx, kind: &str, files: &[(String, String)], rng: &mut Rn
                                     break;
                                 }
                                 Some((n, text, marks)) => {
-                                    let first_non_ws = src_line.chars().position(|c| !c.is_whitespace()).unwrap_or(0);
-                                    let want_start = w.c0.saturating_sub(first_non_ws);
+                                    // how many characters of the line stand in front of what the excerpt shows
+                                    // (the shown text is looked up in the line: no assumption about what the printer strips)
+                                    let shown: Vec<char> = text.trim_end().chars().collect();
+                                    let line_chars: Vec<char> = src_line.chars().collect();
+                                    let first_non_ws = if shown.is_empty() { line_chars.len().min(w.c0) } else { (0..=line_chars.len().saturating_sub(shown.len())).find(|i| line_chars[*i..].starts_with(&shown)).unwrap_or(0) };
+                                    if w.c0 < first_non_ws {
+                                        ok = false;
+                                        acc.violation(
+                                            "C18|caret|character-not-shown".to_string(),
+                                            format!("the diagnostic is about column {} of line {} ({:?}), the excerpt `{text}` starts at column {}: what it is about is not shown", w.c0 + 1, w.line + 1, line_chars.get(w.c0), first_non_ws + 1),
+                                            replay.clone(),
+                                        );
+                                        break;
+                                    }
+                                    let want_start = w.c0 - first_non_ws;
                                     let want_len = w.c1 + 1 - w.c0;
+                                    if marks.contains('\r') {
+                                        ok = false;
+                                        acc.violation("C18|caret|carriage-return-in-marker-line".to_string(), format!("the marker line under `{text}` contains a carriage return: on a terminal the marker is drawn at the start of the line"), replay.clone());
+                                        break;
+                                    }
                                     let got_start = marks.chars().position(|c| c == '^').unwrap_or(usize::MAX);
                                     let got_len = marks.chars().filter(|c| *c == '^').count();
                                     let layout = if src_line.starts_with('\t') { "tab-indented" } else if first_non_ws == 0 { "not-indented" } else { "space-indented" };
-                                    if *n != w.line + 1 || text.trim_end() != src_line.trim() {
+                                    // the excerpt is the line without its indentation and trailing blanks: what is cut off is white space
+                                    let cut_ok = line_chars[..first_non_ws.min(line_chars.len())].iter().all(|c| c.is_whitespace())
+                                        && line_chars.get(first_non_ws + shown.len()..).unwrap_or_default().iter().all(|c| c.is_whitespace())
+                                        && (shown.is_empty() || line_chars[first_non_ws.min(line_chars.len())..].starts_with(&shown));
+                                    if *n != w.line + 1 || !cut_ok {
                                         ok = false;
                                         acc.violation(format!("C18|caret|wrong-line|{layout}"), format!("excerpt shows line {n} `{text}`, the diagnostic is on line {} `{}`", w.line + 1, src_line.trim()), replay.clone());
                                         break;
@@ -274,8 +296,28 @@ pub fn run(ctx: &Ctx) -> i32 {
         let mut acc = Acc::new();
         for k in 0..per_shard {
             let mut rng = Rng::derive(ctx.seed, 18_000 + shard as u64, k as u64);
-            let which = rng.below(6);
+            let which = rng.below(7);
             let (kind, text) = match which {
+                6 => {
+                    // lines that start with characters the lexer does not take for blanks (form feed, vertical tab,
+                    // no-break space, ideographic space), tabs, and CR/LF line ends with an error at the end of a line
+                    let odd = ['\u{c}', '\u{b}', '\u{a0}', '\u{3000}', '\u{2003}'];
+                    let crlf = rng.chance(0.5);
+                    let mut lines = vec!["main:".to_string()];
+                    for _ in 0..2 + rng.below(4) {
+                        lines.push(match rng.below(6) {
+                            0 => format!("{}    addi t0, t0, 1", odd[rng.below(odd.len())]),
+                            1 => format!("  {}{}li t1, 2", odd[rng.below(odd.len())], odd[rng.below(odd.len())]),
+                            2 => "    addi t0, t0".to_string(),
+                            3 => format!("\t{}\taddi t2, t2, 1", odd[rng.below(odd.len())]),
+                            4 => "\t\tadd t3, t3".to_string(),
+                            _ => "    addi t4, t4, 1".to_string(),
+                        });
+                    }
+                    lines.push("    li a7, 10".into());
+                    lines.push("    ecall".into());
+                    ("odd-white-space", lines.join(if crlf { "\r\n" } else { "\n" }) + if crlf { "\r\n" } else { "\n" })
+                }
                 0 | 1 => {
                     let inj = ALL_INJECT[rng.below(ALL_INJECT.len())];
                     let g = gen::generate(&mut rng, &Profile::conforming(), Some(inj));
